@@ -5,12 +5,16 @@
 package peng
 
 import (
+	"context"
 	"fmt"
 	"runtime"
 	"strings"
 	"sync"
 	"time"
 
+	"github.com/relab/gorums"
+
+	"verif/puppet"
 	"verif/scen"
 )
 
@@ -43,6 +47,13 @@ type Case struct {
 	Probe bool `json:"probe,omitempty"`
 	// HoldAtEnd: handlers that are gated stay blocked until after the probes (C04: a never-releasing handler)
 	HoldAtEnd bool `json:"hold_at_end,omitempty"`
+	// Down lists servers that are never started.
+	Down []int `json:"down,omitempty"`
+	// CtxCheck: before the gates are opened, every call whose context has ended
+	// must have returned (C08); results in Result.HungCtx.
+	CtxCheck bool `json:"ctx_check,omitempty"`
+	// ProbeMgrs restricts which managers probe (empty = all).
+	ProbeMgrs []int `json:"probe_mgrs,omitempty"`
 	// Drain: before pending calls are cancelled at the end, wait until every
 	// targeted server has entered every call (programs without failures).
 	Drain bool `json:"drain,omitempty"`
@@ -75,15 +86,17 @@ type Probe struct {
 
 // Result of a run.
 type Result struct {
-	Events   []scen.Event
-	Calls    []CallInfo
-	IDs      [][]uint32 // per manager: node id per server
-	Hung     []string   // calls that did not end: "call <idx> <kind>: <signature>"
-	Late     bool
-	Probes   []Probe
-	SetupErr string
-	Clients  []*scen.Client
-	Cluster  *scen.Cluster
+	Events    []scen.Event
+	Calls     []CallInfo
+	IDs       [][]uint32 // per manager: node id per server
+	Hung      []string   // calls that did not end: "call <idx> <kind>: <signature>"
+	HungCtx   []string   // calls that did not return although their context had ended (checked while nodes still misbehave)
+	BadCtxErr []string   // calls that returned an error not matching their ended context
+	Late      bool
+	Probes    []Probe
+	SetupErr  string
+	Clients   []*scen.Client
+	Cluster   *scen.Cluster
 	// Residue is filled by runs that ask for it (C18)
 	Routers    map[string]int
 	Goroutines []string
@@ -132,8 +145,23 @@ func Run(c Case, h Hooks) Result {
 	res.Cluster = cl
 	defer cl.Shutdown()
 	for i := 0; i < c.N; i++ {
-		cl.Start(i)
+		down := false
+		for _, d := range c.Down {
+			if d == i {
+				down = true
+			}
+		}
+		if !down {
+			cl.Start(i)
+		}
 	}
+	var floodCancels []func()
+	defer func() {
+		for _, f := range floodCancels {
+			f()
+		}
+	}()
+	var floodMu sync.Mutex
 	var clients []*scen.Client
 	defer func() {
 		cl.OpenAll()
@@ -201,6 +229,22 @@ func Run(c Case, h Hooks) Result {
 				case op.Thread%nthreads != t:
 				case op.Kind == "sleep":
 					time.Sleep(time.Duration(op.Us) * time.Microsecond)
+				case op.Kind == "flood":
+					// background one-way traffic to one node (its context lives until the end of the case)
+					client := clients[op.Mgr%len(clients)]
+					node := client.Node(op.Call.Node % c.N)
+					fctx, fcancel := context.WithCancel(context.Background())
+					floodMu.Lock()
+					floodCancels = append(floodCancels, fcancel)
+					floodMu.Unlock()
+					req := &puppet.Req{Note: "flood", Payload: make([]byte, op.Call.Payload)}
+					n := op.Us
+					go func() {
+						for k := 0; k < n && fctx.Err() == nil; k++ {
+							node.Unicast(fctx, req, gorums.WithNoSendWaiting())
+						}
+					}()
+					time.Sleep(2 * time.Millisecond)
 				case op.Kind == "call":
 					call := calls[i]
 					if op.CancelUs > 0 && op.Call.Ctx == "cancel" {
@@ -234,8 +278,53 @@ func Run(c Case, h Hooks) Result {
 	}
 	threadsDone := waitThreads(scen.B)
 
+	if c.CtxCheck {
+		// every call whose context has ended must be over while the nodes still misbehave
+		for _, ci := range res.Calls {
+			select {
+			case <-ci.Call.IssuedCh():
+			default:
+				if ci.Call.Returned() {
+					continue
+				}
+			}
+			if ci.Spec.Ctx == "background" || ci.Spec.Ctx == "" {
+				continue
+			}
+			if ci.Spec.Ctx == "cancel" && c.Ops[ci.Op].CancelUs == 0 {
+				continue
+			}
+			// wait for the context to end (cancel timers and deadlines are a few ms)
+			select {
+			case <-ci.Call.Ctx().Done():
+			case <-ci.Call.DoneCh():
+				continue
+			case <-time.After(scen.B):
+				continue
+			}
+			if len(res.HungCtx) > 0 {
+				// one hang is confirmed for this case already; the others are only listed
+				select {
+				case <-ci.Call.DoneCh():
+				case <-time.After(50 * time.Millisecond):
+					res.HungCtx = append(res.HungCtx, fmt.Sprintf("call %d %s: (also not returned)", ci.Idx, ci.Kind))
+				}
+				continue
+			}
+			r, sig := scen.Await(ci.Call.DoneCh(), scen.B)
+			switch r {
+			case scen.Hung:
+				res.HungCtx = append(res.HungCtx, fmt.Sprintf("call %d %s: %s", ci.Idx, ci.Kind, sig))
+			case scen.Late:
+				res.Late = true
+			}
+		}
+	}
 	if !c.HoldAtEnd {
 		cl.OpenAll()
+	}
+	for _, f := range floodCancels {
+		f()
 	}
 	if !threadsDone {
 		threadsDone = waitThreads(scen.B)
@@ -282,6 +371,14 @@ func Run(c Case, h Hooks) Result {
 					continue // never issued: its thread is stuck in an earlier call, which is reported
 				}
 			}
+			if len(res.Hung) > 0 {
+				select {
+				case <-ci.Call.DoneCh():
+				case <-time.After(50 * time.Millisecond):
+					res.Hung = append(res.Hung, fmt.Sprintf("call %d %s: (also not ended)", ci.Idx, ci.Kind))
+				}
+				continue
+			}
 			r, sig := scen.Await(ci.Call.DoneCh(), scen.B)
 			switch r {
 			case scen.Hung:
@@ -293,6 +390,17 @@ func Run(c Case, h Hooks) Result {
 	}
 	if c.Probe {
 		for mi, client := range clients {
+			if len(c.ProbeMgrs) > 0 {
+				in := false
+				for _, m := range c.ProbeMgrs {
+					if m == mi {
+						in = true
+					}
+				}
+				if !in {
+					continue
+				}
+			}
 			for s := 0; s < c.N; s++ {
 				// A probe that is concurrent with the asynchronous tear-down of a
 				// stream (caused by an earlier cancelled send) may legitimately fail
